@@ -13,11 +13,11 @@
 #include "verif.h"
 #include "kdf_spec.h"
 #ifdef __CPROVER__
-extern int abs_oneshot;            /* ghost kept by the abstract hash: number of one-shot tinyjambu_hash() calls */
+extern unsigned abs_oneshot;            /* ghost kept by the abstract hash: number of one-shot tinyjambu_hash() calls */
 #include "tinyjambu-prng.c"
 #else
 /* native replay: count the one-shot hash calls made by the PRNG (one per output block) */
-int abs_oneshot;
+unsigned abs_oneshot;
 #define tinyjambu_hash counted_tinyjambu_hash
 #include "tinyjambu-prng.c"
 #undef tinyjambu_hash
@@ -48,7 +48,7 @@ static unsigned char seen_before[MAXREQ][32];
 static size_t seen_size[MAXREQ];
 static void *seen_ud[MAXREQ];
 static uint64_t ghostE, ghost_limit32;   /* bytes emitted since the last request */
-static int blocks_at_mark;
+static unsigned blocks_at_mark;
 static int ghost_bad;
 static int cookie;
 static size_t entropy_cb(void *ud, unsigned char *buf, size_t size)
